@@ -819,7 +819,12 @@ class Interp:
         return fr.env[name]
       if _implied(self.active(fr), d):
         return fr.env[name]
-      return ite(d, fr.env[name], self.undef_like(fr.env[name], name))
+      v = ite(d, fr.env[name], self.undef_like(fr.env[name], name))
+      if isinstance(v, (Vec, StructVal)):
+        # component / attribute stores mutate the object in place: it must be the one held by the environment
+        fr.env[name] = v
+        fr.defg.pop(name, None)
+      return v
     if name in fr.closure:
       return fr.closure[name]
     if name in fr.g:
